@@ -32,6 +32,8 @@ func init() {
 			ruleNarrowingGuarded(c, "R9")
 			ruleGlobals(c, "R10")
 			ruleIndexResetOnEveryPath(c, "R2c")
+			rulePatternsEnterThroughTheParser(c, "R11")
+			ruleIndexedFieldsKeepValidatedText(c, "R12")
 		},
 	})
 }
